@@ -66,8 +66,10 @@ def graph_special(rng):
     return {"states": states, "edges": edges}
 
 
-def define(g, strict):
-    """Execute the class statement; returns (outcome, warning kinds, named states)."""
+def define(g, strict, via="flat"):
+    """Execute the class statement; returns (outcome, warning kinds, named states).  via="subclass": the states and
+    transitions are declared on a lenient base class and the class under test is `class G(Base, strict_states=...)` with an
+    empty body - the same machine, so the same verdict (and its own warnings)."""
     from statemachine import State, StateMachine
     from statemachine.exceptions import InvalidDefinition
     from statemachine.factory import StateMachineMetaclass
@@ -91,7 +93,12 @@ def define(g, strict):
             if tl is not None:
                 attrs["go"] = tl
             kwargs = {"strict_states": True} if strict else {}
-            cls = StateMachineMetaclass("G", (StateMachine,), attrs, **kwargs)
+            if via == "subclass":
+                base = StateMachineMetaclass("GBase", (StateMachine,), attrs)
+                del w[:]
+                cls = StateMachineMetaclass("G", (base,), {"__module__": "vmod_c09"}, **kwargs)
+            else:
+                cls = StateMachineMetaclass("G", (StateMachine,), attrs, **kwargs)
             if not g["edges"] and getattr(cls, "_abstract", False):
                 return "abstract", set(), {}
             outcome = "accept"
@@ -125,7 +132,7 @@ def run(pid, tier, seed, replay):
         import json
         rep = json.load(open(replay))["replay"]
         print(json.dumps(rep, indent=1)[:2000])
-        print("now:", define(rep["graph"], rep["strict"]))
+        print("now:", define(rep["graph"], rep["strict"], rep.get("via", "flat")))
         return 1
     cases = []
     for n in (1, 2, 3):
@@ -144,6 +151,9 @@ def run(pid, tier, seed, replay):
             cases.append({"g": g, "strict": rng.random() < 0.5, "origin": "sample5"})
     for _ in range(4000 if quick else 60000):
         cases.append({"g": graph_special(rng), "strict": rng.random() < 0.5, "origin": "special"})
+    # the same machine declared on a lenient base class and checked as `class G(Base, strict_states=...)`: same verdict
+    for c in cases[nexh:]:
+        c["via"] = "subclass" if rng.random() < 0.3 else "flat"
     res, st = tlc.eval_batch("Eval_Validate.tla", [{"g": c["g"], "strict": c["strict"]} for c in cases], shards=15,
                              timeout=3000)
     chk.coverage["tlc_cases_evaluated"] = len(cases)
@@ -151,7 +161,7 @@ def run(pid, tier, seed, replay):
     by_reason = {}
     for c, v in zip(cases, res):
         g = c["g"]
-        outcome, kinds, named = define(g, c["strict"])
+        outcome, kinds, named = define(g, c["strict"], c.get("via", "flat"))
         by_reason[v["reason"] or "accepted"] = by_reason.get(v["reason"] or "accepted", 0) + 1
         distinct.add(v["reason"] + "|" + str(v["warn_trap"]) + str(v["warn_nopath"]) + "|" + str(len(g["states"])) + "|" + str(len(g["edges"])))
         if not g["edges"] and not v["accept"] and outcome in ("abstract",):
@@ -167,13 +177,13 @@ def run(pid, tier, seed, replay):
                     ok = False
         if not ok:
             chk.report({"kind": "verdict_mismatch", "spec": want + ":" + v["reason"], "observed": outcome,
-                        "origin": c["origin"], "has_any": any(e["src"] == "*" for e in g["edges"]),
+                        "origin": c["origin"], "via": c.get("via", "flat"), "has_any": any(e["src"] == "*" for e in g["edges"]),
                         "warn_spec": sorted(want_kinds), "warn_observed": sorted(kinds)},
                        f"class over {[(s['id'], 'I' if s['initial'] else '', 'F' if s['final'] else '') for s in g['states']]} "
                        f"edges {[(e['src'], e['tgt'], 'int' if e['internal'] else '') for e in g['edges']]} strict={c['strict']}: "
                        f"observed {outcome} warnings {sorted(kinds)} {named.get('error', '')[:80]}; specification {want} "
                        f"({v['reason']}) warnings {sorted(want_kinds)} traps={v['traps']} nopath={v['nopath']}",
-                       {"graph": g, "strict": c["strict"], "verdict": v})
+                       {"graph": g, "strict": c["strict"], "via": c.get("via", "flat"), "verdict": v})
         elif len(chk.samples) < 3 and c["origin"] == "special":
             chk.add_sample({"states": g["states"], "edges": g["edges"], "strict": c["strict"], "verdict": v})
     chk.coverage.update({
@@ -181,6 +191,6 @@ def run(pid, tier, seed, replay):
         "exhaustive_part": nexh, "verdict_distribution": by_reason,
         "rule": ("exhaustive: every graph over 1-3 states (all initial/final flag assignments x all edge sets incl. self loops) x strict; "
                  "quick adds 6000 sampled 4-state graphs, thorough all 4-state graphs with s0 initial and 150000 sampled 5-state graphs; plus "
-                 "graphs with doubled edges, internal flags (on self and non-self transitions) and from_.any(); distinct = (verdict, warnings, "
+                 "graphs with doubled edges, declaration on a lenient base class with the class under test an empty subclass (30%), internal flags (on self and non-self transitions) and from_.any(); distinct = (verdict, warnings, "
                  "#states, #edges) classes")})
     return chk.finish()
